@@ -88,6 +88,19 @@ def f2d (b : UInt32) : UInt64 :=
 
 def ext : Ext := ⟨fmtD, parseD, d2f, f2d⟩
 
+/-- Raw header text inside the scope of the card parser model: printable ASCII, and a value indicator `=` in
+    column 9 is followed by a blank (cfitsio 4 also accepts `KEY     =value`; the model's `parseCard` follows the
+    standard's `= `).  Files outside are reported as `unmodelled`. -/
+def rawCardOK (s : Str) : Bool :=
+  s.all (fun c => 32 ≤ c.toNat && c.toNat ≤ 126)
+  && (isCommentary (trimRight (s.take 8)) || !((s.drop 8).head? == some '=' && (s.drop 9).head? != some ' '))
+
+partial def rawOK (p : Bool) (b : Bytes) : Bool :=
+  if b.isEmpty then true else
+  match splitHeader (b.length / 80 + 1) 0 b, decodeHdu p b with
+  | some (raw, _), some (_, rest) => raw.all rawCardOK && rawOK false rest
+  | _, _ => true
+
 /-! parsing / printing tables -/
 
 def nats (ws : List String) : Option (List Nat) := ws.mapM String.toNat?
@@ -201,7 +214,7 @@ def handle (tabs : Option Table) (ws : List String) : Option Table × String :=
     | some b =>
       match decodeFits b with
       | none => (tabs, s!"F {name} undecodable")
-      | some f => if ¬ modelledE ext f then (tabs, s!"F {name} unmodelled") else (tabs, s!"F {name} {showRead (readFixed ext f)}")
+      | some f => if ¬ (modelledE ext f && rawOK true b) then (tabs, s!"F {name} unmodelled") else (tabs, s!"F {name} {showRead (readFixed ext f)}")
   | ["R", name, hx] =>
     match unhex hx with
     | none => (tabs, s!"R {name} bad-input")
@@ -209,7 +222,7 @@ def handle (tabs : Option Table) (ws : List String) : Option Table × String :=
       match decodeFits b with
       | none => (tabs, s!"R {name} undecodable")
       | some f =>
-        if ¬ modelledE ext f then (tabs, s!"R {name} unmodelled") else
+        if ¬ (modelledE ext f && rawOK true b) then (tabs, s!"R {name} unmodelled") else
         let old := match readCore ext f with | .error e => "err:" ++ errName e | .ok t => if decide t.WF then "ok:wf" else "ok:NOT-WF"
         match readFixed ext f with
         | .error e =>
